@@ -295,7 +295,14 @@ INVARIANT Emit
     for idx, s in enumerate(chosen):
         r2 = random.Random(seed * 7919 + idx)
         steps, meta = concretise_c05(r2, s)
+        routed = [j for j, m in enumerate(meta) if m['m'] == 'stmt']
+        if idx % 5 == 2 and routed and routed[0] >= 1:
+            # an environment event the rule does not depend on either: the pool is re-created by a reload that changes
+            # nothing about routing (idle_timeout) right before the routed statement
+            steps[routed[0]]['reload_before'] = {'bump_idle_timeout': True}
         cfg = dict(s['cfg'])
+        if any(st.get('reload_before') for st in steps):
+            cfg['uniq'] = idx
         # a dimension the rule does not depend on: a [plugins] section present in the pool (Router.tla: PluginsConfigured)
         if cfg.get('parser') and idx % 3 == 1:
             cfg['plugins'] = {'table_access': {'enabled': idx % 2 == 0, 'tables': ['zz_not_used_by_any_statement']},
@@ -808,11 +815,20 @@ def check_c06(prop, tier, seed):
                 path = paths[(j + len(steps)) % len(paths)]
                 cls = r2.choice(POS_CLASSES + (NEG_CLASSES if path not in ('set_key', 'literal') else []))
                 key = KEYCLASS[cls](r2)
+                switch = None
+                if steps and r2.random() < 0.12:
+                    # the sharding function is changed by a reload while this client stays connected: the statement that
+                    # follows is the first of a transaction that starts afterwards
+                    fn = 'pg_bigint_hash' if fn == 'sha1' else 'sha1'
+                    switch = {'sharding_function': fn}
                 ext = sha1_shard(key, nsh) if fn == 'sha1' else -1
                 abstract.append('%s:%s' % (path, cls))
                 if path == 'set_key':
                     text = spell_command(r2, 'set_key', str(key))
                     steps.append({'kind': 'q', 'sql': text, 'tag': False})
+                    if switch:
+                        steps[-1]['reload_before'] = switch
+                        abstract[-1] += ':after_reload'
                     if fn == 'sha1':
                         meta.append({'m': 'cmd', 'op': 'set_key_ext', 'arg': str(key), 'text': text, 'expect': ext})
                     else:
@@ -821,6 +837,10 @@ def check_c06(prop, tier, seed):
                     meta.append({'m': 'stmt', 'class': 'read', 'sql': 'SELECT 1', 'proto': 'simple', 'path': 'after_set_key'})
                 else:
                     st, sql = key_step(r2, path, key)
+                    if switch:
+                        st['reload_before'] = switch
+                        abstract[-1] += ':after_reload'
+                        path = path + '_after_reload'
                     steps.append(st)
                     meta.append({'m': 'stmt', 'class': 'read', 'sql': sql, 'proto': 'extended' if st['kind'] == 'ext' else 'simple',
                                  'key': key, 'path': path + ':' + cls, 'ext': ext})
@@ -846,6 +866,8 @@ def check_c06(prop, tier, seed):
         # final probe: the selection persists
         steps.append({'kind': 'q', 'sql': 'SELECT 2'})
         meta.append({'m': 'stmt', 'class': 'read', 'sql': 'SELECT 2', 'proto': 'simple', 'path': 'sticky'})
+        if any(st.get('reload_before') for st in steps):
+            cfg = dict(cfg, uniq=idx)       # a pool of its own: the reload must not change the pool under other sessions
         sess = {'id': idx, 'cfg': cfg, 'steps': steps, 'meta': meta, 'family': 'paths', 'abstract': abstract}
         if nsh != routing.NSHARDS:
             sess['nshards'] = nsh
